@@ -354,5 +354,14 @@ def rule_f(ctx):
     rule_g(ctx)
 
 
+def rule_dispatch(ctx):
+    """LEASE frames of the connection reach handle_lease (the method C14.d decides)."""
+    from . import dispatch
+    dispatch.rule_rows(ctx, 'C01.e', ['LeaseFrame'])
+    dispatch.rule_lookup(ctx, 'C01.e')
+    dispatch.rule_routing(ctx, 'C01.e', only=['LeaseFrame'])
+
+
 RULES = [('C14.a', rule_a), ('C14.b', rule_b), ('C14.c', rule_c), ('C14.d', rule_d), ('C14.e', rule_e),
-         ('C08.g', rule_f)]
+         ('C08.g', rule_f),
+         ('C01.e', rule_dispatch)]
